@@ -740,6 +740,10 @@ func TestFromFiles(t *testing.T) {
 		{"a.p": "\r\n\r\nx = = 1\r\n", "b.p": " \n use(\"a.p\")"},
 		{"a.p": "# head\n\nuse(\"a.p\")  \n\n", "b.ppl": "\n \t\n", "c.p": "\n\n\nuse(\"b.ppl\")\nuse(\"missing.p\")"},
 		{"a.p": "x = \"\"\"\n text \n\"\"\"  \n\n", "b.p": "\n"},
+		// script files whose names begin with a dot, or are nothing but an extension
+		{"a.p": "use(\".common.p\")\nuse(\".lib.ppl\")", ".common.p": "add_key(c, 1)", ".lib.ppl": "use(\".common.p\")"},
+		{".p": "add_key(dot, 1)", "user.p": "use(\".p\")", "..p": "use(\"user.p\")", ".ppl": "use(\"missing.p\")"},
+		{".#a.p": "x = = 1", "a.p": "use(\".#a.p\")", "~b.p": "add_key(t, 1)", "#c.p#.p": "use(\"~b.p\")", "-d.p": "use(\"#c.p#.p\")"},
 	}
 	// an interpreter line at the top (a comment to the language, part of the file); files larger than a mebibyte whose
 	// use calls and last statement lie behind that mark
